@@ -9,4 +9,4 @@ RULE = ("per item and variant: histories of 2-6 decodes (TL1 bare/boxed, TL2, JS
 
 def run(ctx):
     codec.simple_check(ctx, "c09", RULE, [("types", "types", 150), ("decodes", "decodes", 20000), ("equal decodes", "decodes_equal", 10000), ("resets", "resets", 3000)],
-                       24, 150, count_keys=("decodes",))
+                       24, 150, count_keys=("decodes",), random_quick=3, random_thorough=30)
